@@ -170,7 +170,9 @@ def relevant(prop, f):
     if prop == 'C18':
         return 'history' in parts or 'headers-len-restore' in parts
     if prop == 'C15':
-        return 'headers-len-restore' in parts
+        # an option of the OTHER message kind changed something, or a buffer the default options accept is read differently under options
+        other_kind = (fam == 'request' and cfg & (1 | 2 | 8 | 32)) or (fam == 'response' and cfg & (4 | 64))
+        return bool(other_kind) or (cfg != 0 and eo == 'Complete' and parts != ['error-kind'])
     return False
 
 
